@@ -80,12 +80,13 @@ Proof. unfold assemble. rewrite size_set_data, pool_bytes_set_data, all_ptrs_set
 End SetData.
 
 (* ------------------------------------------------------------------ re-serializing the poked data *)
-Lemma serialize_poked kf m m' a f : wf_archive a -> fits32 a -> serialize_k kf m a = Ok f ->
+Lemma serialize_poked kf m m' a f : wf_archive a -> serialize_k kf m a = Ok f ->
   exists d2 tpool2 groups, ser_data kf a = Ok (d2, tpool2, groups) /\ lenN d2 = size a /\ wfb d2 /\
     serialize_k kf m' (set_data a d2) = Ok f.
 Proof.
-  intros WF FIT Ef.
+  intros WF Ef.
   destruct (ser_facts kf a WF) as (d2 & tpool2 & groups & ltab & Es & L2 & W2 & Hptr & Hstr & Hnth & Hok2 & Wp & Hlen & Erl & HF & Hperm).
+  destruct (serialize_ok_small kf m a f d2 tpool2 groups ltab Ef Es L2 Hok2 Hlen Erl Hptr Hstr) as [SZ FSZ].
   exists d2, tpool2, groups. split; [exact Es|]. split; [exact L2|]. split; [exact W2|].
   assert (Ei : forall mm, assemble kf a mm (d2, tpool2, groups) = Ok (image_of a d2 tpool2 groups ltab)) by (intros mm; apply assemble_ok; assumption).
   assert (E : f = image_of a d2 tpool2 groups ltab).
@@ -106,13 +107,13 @@ Lemma no_cstrs_pool a : a_cstrs a = [] -> cs_ptrs a = [] /\ pool_bytes a = [].
 Proof. intros E. unfold cs_ptrs, pool_bytes, cs_run, cs_sorted. rewrite E. split; reflexivity. Qed.
 
 Theorem reserialize_identity : forall kf m m' a f a',
-  wf_archive a -> a_cstrs a = [] -> fits32 a ->
+  wf_archive a -> a_cstrs a = [] ->
   serialize_k kf m a = Ok f -> from_bytes (a_endian a) f = Ok a' -> serialize_k kf m' a' = Ok f.
 Proof.
-  intros kf m m' a f a' WF Hcs FIT Ef Ep.
-  destruct (serialize_conforms kf m a WF FIT) as (f0 & Ef0 & _ & Hc). rewrite Ef in Ef0. inversion Ef0; subst f0.
+  intros kf m m' a f a' WF Hcs Ef Ep.
+  destruct (serialize_ok_conforms kf m a f WF Ef) as (_ & Hc).
   destruct (parser_correct _ _ _ Hc) as (a0 & Ep0 & Hd & He & Hcs' & Gp & Gt & Gl & Np & Nt & Nl). rewrite Ep in Ep0. inversion Ep0; subst a0.
-  destruct (serialize_poked kf m m' a f WF FIT Ef) as (d2 & tpool2 & groups & Es & L2 & W2 & Eb).
+  destruct (serialize_poked kf m m' a f WF Ef) as (d2 & tpool2 & groups & Es & L2 & W2 & Eb).
   destruct (no_cstrs_pool a Hcs) as [Ecp Epb].
   rewrite (published_eq kf a d2 tpool2 groups Es) in Hd, Gp, Gt, Gl. cbn [c_data c_ptrs c_text c_labels] in Hd, Gp, Gt, Gl.
   rewrite Epb, app_nil_r in Hd. rewrite Ecp, app_nil_r in Gp.
@@ -128,13 +129,13 @@ Qed.
 
 (* the same, for any archive that answers every lookup like the parsed one *)
 Corollary reserialize_identity_lookups : forall kf m m' a f a' a'',
-  wf_archive a -> a_cstrs a = [] -> fits32 a ->
+  wf_archive a -> a_cstrs a = [] ->
   serialize_k kf m a = Ok f -> from_bytes (a_endian a) f = Ok a' ->
   maps_are_maps a'' -> same_observations a' a'' -> serialize_k kf m' a'' = Ok f.
 Proof.
-  intros kf m m' a f a' a'' WF Hcs FIT Ef Ep Hm Hs.
-  rewrite <- (reserialize_identity kf m m' a f a' WF Hcs FIT Ef Ep). symmetry. apply serialize_deterministic; [|exact Hm|exact Hs].
-  destruct (serialize_conforms kf m a WF FIT) as (f0 & Ef0 & _ & Hc). rewrite Ef in Ef0. inversion Ef0; subst f0.
+  intros kf m m' a f a' a'' WF Hcs Ef Ep Hm Hs.
+  rewrite <- (reserialize_identity kf m m' a f a' WF Hcs Ef Ep). symmetry. apply serialize_deterministic; [|exact Hm|exact Hs].
+  destruct (serialize_ok_conforms kf m a f WF Ef) as (_ & Hc).
   destruct (parser_correct _ _ _ Hc) as (a0 & Ep0 & _ & _ & _ & _ & _ & _ & Np & Nt & Nl). rewrite Ep in Ep0. inversion Ep0; subst a0.
   unfold maps_are_maps. auto.
 Qed.
